@@ -117,6 +117,39 @@ StripeRecord(kids, rec) ==
   LET lp == LeafPaths(kids) IN
   [q \in {lp[i] : i \in 1..Len(lp)} |-> Stripe(kids, q, rec)]
 
+\* ---------------------------------------------------------------- footer schema (C02, C15)
+\* the flattened schema list a writer must record for a schema whose nodes
+\* carry typ and name: depth first, groups with num_children, leaves with
+\* physical / converted type (parquet.thrift numbering)
+TypeNum(t) == CASE t = "bool" -> 0 [] t \in {"int32", "uint32"} -> 1 [] t \in {"int64", "uint64"} -> 2
+                [] t = "float32" -> 4 [] t = "float64" -> 5 [] t = "string" -> 6 [] OTHER -> -1
+CTypeNum(t) == CASE t = "uint32" -> 13 [] t = "uint64" -> 14 [] OTHER -> -1
+RepNum(r) == CASE r = "req" -> 0 [] r = "opt" -> 1 [] r = "rep" -> 2
+
+RECURSIVE SchemaElems(_)
+SchemaElems(kids) ==
+  Concat([i \in 1..Len(kids) |->
+     LET n == kids[i] IN
+     IF IsLeaf(n)
+     THEN << [name |-> n.name, rep |-> RepNum(n.rep), type |-> TypeNum(n.typ), ctype |-> CTypeNum(n.typ), nch |-> 0] >>
+     ELSE << [name |-> n.name, rep |-> RepNum(n.rep), type |-> -1, ctype |-> -1, nch |-> Len(n.kids)] >>
+          \o SchemaElems(n.kids)])
+
+\* an observed element list (first element = root) matches the schema
+ElemMatches(o, e) ==
+  /\ o.name = e.name /\ o.rep = e.rep /\ o.type = e.type /\ o.ctype = e.ctype
+  /\ IF e.type = -1 THEN o.nch = e.nch ELSE o.nch \in {-1, 0}
+SchemaMatches(obs, kids) ==
+  LET want == SchemaElems(kids) IN
+  /\ Len(obs) = Len(want) + 1
+  /\ obs[1].type = -1 /\ obs[1].nch = Len(kids) /\ obs[1].rep \in {-1, 0}
+  /\ \A i \in 1..Len(want) : ElemMatches(obs[i + 1], want[i])
+
+\* dotted column names, in column order
+RECURSIVE PathNames(_, _)
+PathNames(kids, path) ==
+  IF path = <<>> THEN <<>> ELSE <<kids[path[1]].name>> \o PathNames(kids[path[1]].kids, Tail(path))
+
 \* ---------------------------------------------------------------- bounded universes
 
 \* structure-only nodes: size (number of nodes) <= n, depth <= d, <= k children
